@@ -121,6 +121,11 @@ enum Effect {
     ReplaceWith(usize, i64),
     Get(usize),
     Read(usize),
+    AddDep(usize, usize, usize, bool),
+    RemoveDep(usize, usize),
+    SwapDep(usize, usize, Vec<usize>, bool),
+    MakeStale(usize),
+    InvalidateExpert(usize),
     Stabilise,
     Panic,
 }
@@ -222,6 +227,11 @@ impl P {
             "replacewith" => Effect::ReplaceWith(n(1), z(2)),
             "get" => Effect::Get(n(1)),
             "read" => Effect::Read(n(1)),
+            "adddep" => Effect::AddDep(n(1), n(2), n(3), p[4] == "1"),
+            "rmdep" => Effect::RemoveDep(n(1), n(2)),
+            "swapdep" => Effect::SwapDep(n(1), n(2), p[4].split(',').map(|x| x.parse().unwrap()).collect(), p[3] == "1"),
+            "makestale" => Effect::MakeStale(n(1)),
+            "invalidate" => Effect::InvalidateExpert(n(1)),
             "stabilise" => Effect::Stabilise,
             "panic" => Effect::Panic,
             _ => panic!("parse: effect {t}"),
@@ -358,6 +368,16 @@ impl P {
 
 // ---------------------------------------------------------------- context shared with closures
 type MemoFn = Rc<dyn Fn(i64) -> I>;
+/// what the program keeps about one dependency of an expert node
+struct DepRec {
+    id: usize,
+    dep: incremental::expert::Dependency<Val>,
+    seen: Rc<RefCell<Option<Val>>>,
+}
+struct ExRec {
+    weak: incremental::expert::WeakNode<Val>,
+    deps: Rc<RefCell<Vec<DepRec>>>,
+}
 struct Ctx {
     state: WeakState,
     vars: RefCell<Vec<Option<Var<Val>>>>,
@@ -365,6 +385,9 @@ struct Ctx {
     exports: RefCell<Vec<I>>,
     hnodes: RefCell<Vec<Option<I>>>,
     memos: RefCell<Vec<MemoFn>>,
+    experts: RefCell<std::collections::HashMap<usize, Rc<ExRec>>>,
+    dep_slots: RefCell<Vec<Option<usize>>>,
+    next_edge: Cell<usize>,
     foreign_node: I,
     _foreign_state: IncrState,
     inv_count: Cell<usize>,
@@ -401,7 +424,9 @@ fn ev(s: String) {
     incremental::verif::event(s);
 }
 fn user_call() {
-    let c = ctx();
+    // closures can still be called while everything is torn down at the end of a history (an expert node's
+    // observability callback when its last observer goes away): there is no context any more
+    let Some(c) = CTX.with(|c| c.borrow().clone()) else { return };
     c.inv_count.set(c.inv_count.get() + 1);
     if c.crash_at.get() == Some(c.inv_count.get()) {
         panic!("injected");
@@ -470,6 +495,32 @@ fn run_effects(arg: &Val, effs: &[Effect]) {
                     None => ev(format!("effread {o} nohandle")),
                 }
             }
+            Effect::AddDep(e, h, sl, cb) => {
+                if let Some(d) = expert_add_dep(*e, *h, *cb) {
+                    slot_set(*sl, Some(d));
+                }
+            }
+            Effect::RemoveDep(e, sl) => expert_remove_slot(*e, *sl),
+            Effect::SwapDep(e, sl, hs, cb) => {
+                let h = hs[arg.as_int().rem_euclid(hs.len() as i64) as usize];
+                // add the new dependency, then remove the previous one (the join/bind idiom)
+                if c.hnodes.borrow().get(*e).cloned().flatten().is_some() {
+                    if let Some(new) = expert_add_dep(*e, h, *cb) {
+                        expert_remove_slot(*e, *sl);
+                        slot_set(*sl, Some(new));
+                    }
+                }
+            }
+            Effect::MakeStale(e) => {
+                if let Some(rec) = expert_rec(*e) {
+                    rec.weak.make_stale()
+                }
+            }
+            Effect::InvalidateExpert(e) => {
+                if let Some(rec) = expert_rec(*e) {
+                    rec.weak.invalidate()
+                }
+            }
             Effect::Stabilise => {
                 if let Some(s) = c.state.upgrade() {
                     s.stabilise()
@@ -478,6 +529,85 @@ fn run_effects(arg: &Val, effs: &[Effect]) {
             Effect::Panic => panic!("injected"),
         }
     }
+}
+
+// ---------------------------------------------------------------- expert nodes
+fn slot_set(sl: usize, v: Option<usize>) {
+    let c = ctx();
+    let mut s = c.dep_slots.borrow_mut();
+    while s.len() <= sl {
+        s.push(None);
+    }
+    s[sl] = v;
+}
+/// the expert node behind node handle `e`, if the program still holds that handle
+fn expert_rec(e: usize) -> Option<Rc<ExRec>> {
+    let c = ctx();
+    let n = c.hnodes.borrow().get(e).cloned().flatten()?;
+    let r = c.experts.borrow().get(&n.verif_rank()).cloned();
+    r
+}
+fn expert_new(state: &WeakState, mode: i64) -> I {
+    let rank = Rc::new(Cell::new(usize::MAX));
+    let deps: Rc<RefCell<Vec<DepRec>>> = Rc::new(RefCell::new(vec![]));
+    let (r1, r2, d1) = (rank.clone(), rank.clone(), deps.clone());
+    let node = incremental::expert::Node::<Val>::new_(
+        state,
+        move || {
+            user_call();
+            let mut total = 0i64;
+            for d in d1.borrow().iter() {
+                total += if mode == 0 {
+                    d.seen.borrow().as_ref().map_or(0, |v| v.as_int())
+                } else {
+                    d.dep.value_cloned().as_int()
+                };
+            }
+            ev(format!("exrun {} {}", r1.get(), total));
+            Val::Int(total)
+        },
+        move |b| {
+            user_call();
+            ev(format!("obschange {} {}", r2.get(), if b { 1 } else { 0 }));
+        },
+    );
+    let w = node.watch();
+    rank.set(w.verif_rank());
+    ctx().experts.borrow_mut().insert(w.verif_rank(), Rc::new(ExRec { weak: node.weak(), deps }));
+    w
+}
+/// expert.add_dependency(_with)(child): returns the edge number, None when a handle is gone
+fn expert_add_dep(e: usize, h: usize, cb: bool) -> Option<usize> {
+    let c = ctx();
+    let rec = expert_rec(e)?;
+    let child = c.hnodes.borrow().get(h).cloned().flatten()?;
+    let id = c.next_edge.get();
+    c.next_edge.set(id + 1);
+    let seen: Rc<RefCell<Option<Val>>> = Rc::new(RefCell::new(None));
+    let dep = if cb {
+        let seen_ = seen.clone();
+        let erank = rec.weak.watch().upgrade().map_or(usize::MAX, |n| n.verif_rank());
+        rec.weak.add_dependency_with(&child, move |v: &Val| {
+            user_call();
+            ev(format!("edgecb {erank} {id} {v:?}"));
+            *seen_.borrow_mut() = Some(v.clone());
+        })
+    } else {
+        rec.weak.add_dependency(&child)
+    };
+    rec.deps.borrow_mut().push(DepRec { id, dep, seen });
+    Some(id)
+}
+/// expert.remove_dependency(slot.take())
+fn expert_remove_slot(e: usize, sl: usize) {
+    let c = ctx();
+    let Some(rec) = expert_rec(e) else { return };
+    let Some(id) = c.dep_slots.borrow().get(sl).cloned().flatten() else { return };
+    slot_set(sl, None);
+    let pos = rec.deps.borrow().iter().position(|d| d.id == id);
+    let Some(pos) = pos else { return };
+    let d = rec.deps.borrow_mut().remove(pos);
+    rec.weak.remove_dependency(d.dep);
 }
 
 fn cut0(a: &Val, b: &Val) -> bool {
@@ -788,6 +918,9 @@ impl Interp {
             exports: RefCell::new(vec![]),
             hnodes: RefCell::new(vec![]),
             memos: RefCell::new(vec![]),
+            experts: RefCell::new(Default::default()),
+            dep_slots: RefCell::new(vec![]),
+            next_edge: Cell::new(0),
             foreign_node,
             _foreign_state: foreign,
             inv_count: Cell::new(0),
@@ -1081,6 +1214,36 @@ impl Interp {
                 let n = memo_call(m, k);
                 self.push(n)
             }
+            "expert" => {
+                let mode = p.int();
+                let n = expert_new(&self.ctx.state, mode);
+                self.push(n)
+            }
+            "adddep" => {
+                let (e, h, sl) = (p.nat(), p.nat(), p.nat());
+                let cb = p.next() == "1";
+                if let Some(d) = expert_add_dep(e, h, cb) {
+                    slot_set(sl, Some(d));
+                }
+                "ok".into()
+            }
+            "rmdep" => {
+                let (e, sl) = (p.nat(), p.nat());
+                expert_remove_slot(e, sl);
+                "ok".into()
+            }
+            "makestale" => {
+                if let Some(rec) = expert_rec(p.nat()) {
+                    rec.weak.make_stale()
+                }
+                "ok".into()
+            }
+            "invalidateexpert" => {
+                if let Some(rec) = expert_rec(p.nat()) {
+                    rec.weak.invalidate()
+                }
+                "ok".into()
+            }
             "dropexports" => {
                 let ex = std::mem::take(&mut *self.ctx.exports.borrow_mut());
                 drop(ex);
@@ -1137,6 +1300,10 @@ fn panic_tag(msg: &str, loc: &str) -> String {
         "SetMaxBelowSeen"
     } else if m.contains("whose defining bind is not necessary") {
         "ScopeNotNecessary"
+    } else if m.contains("can only call") && m.contains("during stabilisation") {
+        "OnlyDuringStabilise"
+    } else if m.contains("currently running node was not a child") {
+        "NotAChild"
     } else if m.contains("within an invalid scope") {
         "InvalidScope"
     } else if m.contains("recomputing invalid node") {
@@ -1220,7 +1387,11 @@ fn run_history(id: &str, max_height: usize, dump: bool, lines: &[String], out: &
             LIVE_CLOSURES.with(|c| c.get())
         )
         .unwrap(),
-        Err(_) => writeln!(out, "end panic").unwrap(),
+        Err(_) => {
+            let (msg, loc) = LAST_PANIC.with(|p| p.borrow().clone()).unwrap_or_default();
+            writeln!(out, "end panic {}", panic_tag(&msg, &loc)).unwrap();
+            writeln!(out, "# {} @ {}", msg.replace('\n', " "), loc).unwrap();
+        }
     }
     out.flush().unwrap();
 }
